@@ -34,6 +34,8 @@ impl PrintState {
         self.file_handle = 0.into();
         self.format_string = None;
         self.format_string_index = 0;
+        // a previous PRINT that failed after a separator must not suppress the new line of this one
+        self.should_skip_new_line = false;
     }
 
     pub fn get_printer_type(&self) -> PrinterType {
